@@ -219,10 +219,43 @@ struct snap_user {
 	int8_t out_seq, out_frag;
 	int32_t outfragresent, fragsize, outpacketq_filled;
 	uint8_t encbits;
+	uint16_t inv;		/* structural invariants of the slot that do not hold (bit set), see table_invariants() */
 } __attribute__((packed));
 
 static struct snap_user last_snap[USERS];
 static unsigned last_snap_n = 0xffffffffu;
+
+/* Structural invariants of a users[] slot at a quiescent point.  A write that strays inside struct tun_user (from one member
+   array into the next member) is invisible to red-zone tools; it shows here as an index, length or pointer out of its range. */
+static unsigned table_invariants(const struct tun_user *u)
+{
+	unsigned bad = 0;
+	int j;
+	if (u->qmemping_lastfilled < 0 || u->qmemping_lastfilled >= QMEMPING_LEN) bad |= 1;
+	if (u->qmemdata_lastfilled < 0 || u->qmemdata_lastfilled >= QMEMDATA_LEN) bad |= 2;
+#ifdef OUTPACKETQ_LEN
+	if (u->outpacketq_nexttouse < 0 || u->outpacketq_nexttouse >= OUTPACKETQ_LEN) bad |= 4;
+	if (u->outpacketq_filled < 0 || u->outpacketq_filled > OUTPACKETQ_LEN) bad |= 8;
+	for (j = 0; j < OUTPACKETQ_LEN; j++)
+		if (u->outpacketq[j].len < 0 || u->outpacketq[j].len > (int)sizeof(u->outpacketq[j].data)) bad |= 16;
+#endif
+	if (u->outpacket.len < 0 || u->outpacket.len > (int)sizeof(u->outpacket.data)) bad |= 32;
+	if (u->outpacket.offset < 0 || u->outpacket.offset > (int)sizeof(u->outpacket.data) ||
+	    u->outpacket.sentlen < 0 || u->outpacket.sentlen > (int)sizeof(u->outpacket.data)) bad |= 64;
+	if (u->inpacket.len < 0 || u->inpacket.len > (int)sizeof(u->inpacket.data) ||
+	    u->inpacket.offset < 0 || u->inpacket.offset > (int)sizeof(u->inpacket.data)) bad |= 128;
+#ifdef DNSCACHE_LEN
+	if (u->dnscache_lastfilled < 0 || u->dnscache_lastfilled >= DNSCACHE_LEN) bad |= 256;
+	for (j = 0; j < DNSCACHE_LEN; j++)
+		if (u->dnscache_answerlen[j] < 0 || u->dnscache_answerlen[j] > (int)sizeof(u->dnscache_answer[j])) bad |= 512;
+#endif
+	if (u->conn != CONN_RAW_UDP && u->conn != CONN_DNS_NULL) bad |= 1024;
+	if (u->active && u->encoder != &base32_ops && u->encoder != &base64_ops && u->encoder != &base64u_ops &&
+	    u->encoder != &base128_ops) bad |= 2048;
+	if (u->active != 0 && u->active != 1) bad |= 4096;
+	if ((u->authenticated != 0 && u->authenticated != 1) || (u->authenticated_raw != 0 && u->authenticated_raw != 1)) bad |= 8192;
+	return bad;
+}
 
 static void put_snapshot(void)
 {
@@ -264,6 +297,7 @@ static void put_snapshot(void)
 		else if (u->encoder == &base64u_ops) s[i].encbits = 26;
 		else if (u->encoder == &base128_ops) s[i].encbits = 7;
 		else s[i].encbits = 0;
+		s[i].inv = (uint16_t)table_invariants(u);
 	}
 	if (n == last_snap_n && memcmp(s, last_snap, n * sizeof(s[0])) == 0) {
 		q_u32(0);	/* unchanged */
